@@ -34,13 +34,17 @@ class Block(Node):
             # (an evaluated block may well have no declarations of its own:
             # an empty list must not make it look unevaluated, or its inner
             # @media blocks are rotated out a second time)
+            enclosing = scope.current
             scope.push()
             self.name, inner = self.tokens
             if not self.name.parsed:
                 # not resolved at grammar time (interpolated variable defined
                 # later): root it now, while the enclosing block is current
                 self.name.parse(scope)
-            scope.current = self.name
+            # (an @media block is no selector scope: what is rooted late
+            # inside it belongs under the rule that encloses the block)
+            scope.current = (enclosing if self.name.tokens
+                             and self.name.tokens[0] == '@media' else self.name)
             scope.real.append(self.name)
             if not inner:
                 inner = []
